@@ -11,7 +11,10 @@
                      `_loaded`, `_loaded_strings`) sharing one file
   Part (b): `ThreadedHistory` as a transition system whose atomic steps are the
     code sections between two synchronisation points (lock blocks, event set/wait,
-    the call of the inner `load_history_strings`, `store_string`).
+    the call of the inner `load_history_strings`, `store_string`):
+    * `TH`/`step`  = one `load()` consumer at a time + loader thread + `append_string`
+    * `THn`/`stepN` = any number of simultaneous `load()` calls + loader thread stopping
+                     after every single `event.set()` (no `append_string`)
 
   Bytes are natural numbers (`< 256` for everything the encoder produces).
 -/
